@@ -57,12 +57,12 @@ class Side:
 def kernel(s):
     if s.fileno() < 0:
         return (False, False, True)
-    r, w, _ = select.select([s], [s], [], 0)
-    p = select.poll()
+    p = select.poll()           # (poll, not select: descriptor numbers above FD_SETSIZE occur in the many-descriptor history)
     p.register(s, select.POLLIN | select.POLLOUT)
     ev = p.poll(0)
-    hup = bool(ev and ev[0][1] & (select.POLLHUP | select.POLLERR))
-    return (bool(r), bool(w), hup)
+    mask = ev[0][1] if ev else 0
+    hup = bool(mask & (select.POLLHUP | select.POLLERR))
+    return (bool(mask & (select.POLLIN | select.POLLHUP)), bool(mask & select.POLLOUT), hup)
 
 
 class Sub:
@@ -484,7 +484,8 @@ def run(tier, seed, workers):
         states += st.states
         total.merge(st)
     # many descriptors at once (one long history, not a search): every registered-and-ready descriptor is reported, each once
-    for n in ((40,) if tier == 'quick' else (40, 150, 400)):
+    # (three worlds of n socket pairs each must stay below FD_SETSIZE = 1024 descriptors: the Select poller cannot do more)
+    for n in ((40,) if tier == 'quick' else (40, 150)):
         model = PollModel(n, FULL_OPS)
         hist = [('addReader', i) for i in range(n)] + [('addWriter', i) for i in range(0, n, 2)] + [('peer_write', i) for i in range(0, n, 3)]
         hist += [('removeReader', i) for i in range(0, n, 6)] + [('discard', i) for i in range(1, n, 7)] + [('peer_close', i) for i in range(2, n, 9)]
